@@ -326,8 +326,18 @@ def declsOf (i : Ingress) : List Decl :=
         r.paths.map fun p => { ing := i, host := normHost r.host, k := .path p })
   ++ i.tls.flatMap (fun t => t.hosts.map fun h => { ing := i, host := h, k := .tlsHost t.secret })
 
+/-- decimal value of a list of digits (`none` if a character is not a digit). `String.toList` is used
+instead of the `String` iterators so that the kernel can evaluate the model (`decide`). -/
+def digitsVal (l : List Char) : Option Nat :=
+  l.foldl (fun acc c =>
+    match acc with
+    | some n => if c.isDigit then some (n * 10 + (c.toNat - 48)) else none
+    | none => none) (some 0)
+
 def atoi (s : String) : Nat :=
-  if s.isEmpty then 0 else if s.all Char.isDigit then s.toNat! else 0
+  match s.toList with
+  | [] => 0
+  | l => (digitsVal l).getD 0
 
 /-- `backendOf` of the world + `readServiceNamePort`: the port text the converter sees -/
 def ingPort (p : String) : String :=
@@ -339,8 +349,12 @@ def findServicePort (s : Service) (port : String) : Option SvcPort :=
   match s.ports.find? (fun p => p.name = port ∨ p.target = port) with
   | some p => some p
   | none =>
-    if port.isEmpty ∨ ¬ port.all Char.isDigit then none
-    else s.ports.find? (fun p => p.port = port.toNat!)
+    match port.toList with
+    | [] => none
+    | l =>
+      match digitsVal l with
+      | some n => s.ports.find? (fun p => p.port = n)
+      | none => none
 
 inductive Resolve
   | noSvc
@@ -361,12 +375,10 @@ def backID (ns svc target : String) : String := ns ++ "_" ++ svc ++ "_" ++ targe
 def matchOf (ptype : String) : String :=
   if ptype = "Exact" then "exact" else if ptype = "Prefix" then "prefix" else "begin"
 
-/-- `GetTLSSecretPath` name resolution (`buildResourceName`, cross-namespace disabled) -/
+/-- `GetTLSSecretPath` name resolution (`buildResourceName`, cross-namespace disabled). Names with a
+namespace part (`ns/name`) are outside the modelled fragment (the driver abstains). -/
 def secretKey (ns secret : String) : Option String :=
-  match secret.splitOn "/" with
-  | [n] => some (ns ++ "/" ++ n)
-  | [a, n] => if a = "" then some (ns ++ "/" ++ n) else if a = ns then some (a ++ "/" ++ n) else none
-  | _ => none
+  if secret.toList.contains '/' then none else some (ns ++ "/" ++ secret)
 
 def matchingPods (w : World) (svcName : String) : List Pod :=
   if w.drain then w.pods.filter fun p => lookupKV p.labels "app" == some svcName else []
